@@ -2,7 +2,8 @@
    observed before, the operation, what the Go code returned and the state observed after.
    [agrees] compares with the model's step function; [C20_ok] evaluates the property on the
    observation with oracles that do not go through the model's algorithms. *)
-From SC Require Export Base.Prelude Traits.Str Traits.Parent Traits.Vending.
+From SC Require Export Base.Prelude Traits.Str Traits.Parent Traits.Vending Traits.FanSpeed Traits.ModeTrait
+  Traits.EnterLeave Traits.Meter Traits.Publication.
 From Coq Require Import QArith Qabs.
 Open Scope Z_scope.
 
@@ -10,7 +11,14 @@ Inductive c20case :=
 | KParent (pre : children) (o : pop) (ret : option (list string) * bool) (post : children)
 | KConvert (v : Q) (from to : Z) (obs back : option Q)
 | KVendConfig (stocks consumables : list string) (inventory listed : list string)
-| KDispense (pre : option stock) (q : qty) (obs : vout) (post : option stock).
+| KDispense (pre : option stock) (q : qty) (obs : vout) (post : option stock)
+| KFan (ps : list preset) (pre req : fan) (relative : bool) (obs : fout) (post : fan)
+| KModeConfig (given used : modes) (initial : mvalues)
+| KMode (ms : modes) (pre abs : mvalues) (rel : list (string * Z)) (mask : Z) (obs : option mvalues) (post : mvalues)
+| KEnterLeave (pre : elev) (o : elop) (post : elev)
+| KMeterNew (init : option meter) (now : Z) (obs : meter)
+| KMeter (pre : meter) (o : mop) (ret post : meter)
+| KPub (now : Z) (pre : option pub) (o : pubop) (obs : pout) (post : option pub).
 
 Definition children_eqb (a b : children) : bool :=
   list_eqb (fun x y => String.eqb (fst x) (fst y) && strs_eqb (snd x) (snd y)) a b.
@@ -18,12 +26,6 @@ Definition pret_eqb (a b : option (list string) * bool) : bool :=
   option_eqb strs_eqb (fst a) (fst b) && Bool.eqb (snd a) (snd b).
 
 (* ---- parent: set algebra on membership, other children untouched ---- *)
-Definition set_union_ok (has more out : list string) : bool :=
-  ssorted out && forallb (fun x => smem x out) (has ++ more) && forallb (fun x => smem x has || smem x more) out.
-Definition set_diff_ok (has rm out : list string) : bool :=
-  ssorted out && forallb (fun x => smem x rm || smem x out) has
-  && forallb (fun x => smem x has && negb (smem x rm)) out.
-
 Definition others_same (n : string) (pre post : children) : bool :=
   forallb (fun c => String.eqb (fst c) n || option_eqb strs_eqb (find_child (fst c) post) (Some (snd c))) pre
   && forallb (fun c => String.eqb (fst c) n || option_eqb strs_eqb (find_child (fst c) pre) (Some (snd c))) post.
@@ -33,7 +35,7 @@ Definition parent_ok (pre : children) (o : pop) (ret : option (list string) * bo
   | PAdd n names =>
       match fst ret with
       | Some out =>
-          set_union_ok (child_traits n pre) names out
+          set_ok_union (child_traits n pre) names out
           && option_eqb strs_eqb (find_child n post) (Some out)
           && Bool.eqb (snd ret) (match find_child n pre with None => true | Some _ => false end)
           && others_same n pre post
@@ -43,7 +45,7 @@ Definition parent_ok (pre : children) (o : pop) (ret : option (list string) * bo
       match find_child n pre, fst ret with
       | None, None => children_eqb pre post && negb (snd ret)
       | Some has, Some out =>
-          set_diff_ok has names out && option_eqb strs_eqb (find_child n post) (Some out)
+          set_ok_diff has names out && option_eqb strs_eqb (find_child n post) (Some out)
           && negb (snd ret) && others_same n pre post
       | _, _ => false
       end
@@ -89,6 +91,186 @@ Definition convert_matches (eps : Q) (v : Q) (want obs : option Q) : bool :=
   | _, _ => false
   end.
 
+(* ---- fan speed: the consistency rule on the observed state, the documented precedence, errors only for unknown presets ---- *)
+Definition fout_eqb (a b : fout) : bool :=
+  match a, b with
+  | FOk x, FOk y => fan_eqb x y
+  | FErr x, FErr y => x =? y
+  | FPanic, FPanic => true
+  | _, _ => false
+  end.
+Definition fan_ok (ps : list preset) (pre req : fan) (relative : bool) (obs : fout) (post : fan) : bool :=
+  let named := negb (String.eqb (f_preset req) "") in
+  let exists_named := existsb (fun p => String.eqb (fst p) (f_preset req)) ps in
+  match obs with
+  | FErr c => (c =? 3) && named && negb exists_named && fan_eqb post pre
+  | FPanic => false
+  | FOk f =>
+      let idx' := if relative then wrap32 (f_idx req + f_idx pre) else f_idx req in
+      let pct' := if relative then f_pct req + f_pct pre else f_pct req in
+      fan_eqb f post && (negb named || exists_named)
+      && fan_consistent ps post && (f_dir post =? f_dir req)
+      && (if named && negb (String.eqb (f_preset req) (f_preset pre)) then String.eqb (f_preset post) (f_preset req)
+          else if negb (idx' =? f_idx pre) then
+            match ps with [] => true | _ => f_idx post =? Z.max 0 (Z.min idx' (zlen ps - 1)) end
+          else if negb (pct' =? f_pct pre) then f_pct post =? pct'
+          else true)
+  end.
+
+(* ---- mode: wrapping relative steps judged with the mathematical modulus; explicit modes are used ---- *)
+Definition modes_eqb (a b : modes) : bool :=
+  list_eqb (fun x y => String.eqb (fst x) (fst y) && strs_eqb (snd x) (snd y)) a b.
+Definition mvalues_eqb (a b : mvalues) : bool :=
+  list_eqb (fun x y => String.eqb (fst x) (fst y) && String.eqb (snd x) (snd y)) a b.
+Definition ostr_eqb := option_eqb String.eqb.
+
+Definition mode_rel_ok (ms : modes) (pre post : mvalues) (e : string * Z) : bool :=
+  match afind (fst e) ms with
+  | None | Some [] => true
+  | Some ((v0 :: _) as vs) =>
+      let want :=
+        match afind (fst e) pre with
+        | None => v0
+        | Some c => match index_of c 0 vs with
+                    | Some i => nth (Z.to_nat ((i + snd e) mod zlen vs)) vs v0
+                    | None => v0
+                    end
+        end in
+      ostr_eqb (afind (fst e) post) (Some want)
+  end.
+Definition mode_ok (ms : modes) (pre abs : mvalues) (rel : list (string * Z)) (mask : Z) (obs : option mvalues) (post : mvalues) : bool :=
+  match obs with
+  | None => false
+  | Some o =>
+      mvalues_eqb o post &&
+      if mask =? 2 then mvalues_eqb post pre
+      else
+        forallb (mode_rel_ok ms pre post) rel
+        && forallb (fun a => match afind (fst a) rel with
+                             | Some _ => match afind (fst a) ms with None | Some [] => ostr_eqb (afind (fst a) post) (Some (snd a)) | _ => true end
+                             | None => ostr_eqb (afind (fst a) post) (Some (snd a)) end) abs
+  end.
+Definition mode_guard (ms : modes) (rel : list (string * Z)) : bool :=
+  forallb (fun e => (-1073741824 <=? snd e) && (snd e <=? 1073741824)) rel.
+
+(* ---- enter/leave: two counters ---- *)
+Definition oz_eqb := option_eqb Z.eqb.
+Definition elev_eqb (a b : elev) : bool :=
+  (el_dir a =? el_dir b) && ostr_eqb (el_occ a) (el_occ b) && oz_eqb (el_enter a) (el_enter b) && oz_eqb (el_leave a) (el_leave b).
+Definition el_ok (pre : elev) (o : elop) (post : elev) : bool :=
+  let c := count_step (tot (el_enter pre), tot (el_leave pre)) o in
+  oz_eqb (el_enter post) (Some (fst c)) && oz_eqb (el_leave post) (Some (snd c))
+  && match o with
+     | ElEvent e => (el_dir post =? el_dir e) && ostr_eqb (el_occ post) (el_occ e)
+     | ElReset => (el_dir post =? el_dir pre) && ostr_eqb (el_occ post) (el_occ pre)
+     end.
+Definition el_guard (pre : elev) : bool :=
+  (-2147483648 <=? tot (el_enter pre)) && (tot (el_enter pre) <? 2147483647)
+  && (-2147483648 <=? tot (el_leave pre)) && (tot (el_leave pre) <? 2147483647).
+
+(* ---- meter ---- *)
+Definition meter_eqb (a b : meter) : bool :=
+  (m_usage a =? m_usage b) && oz_eqb (m_start a) (m_start b) && oz_eqb (m_end a) (m_end b).
+Definition meter_new_ok (init : option meter) (now : Z) (obs : meter) : bool :=
+  match init with
+  | None => meter_eqb obs (mkMeter 0 (Some now) (Some now))
+  | Some i =>
+      (m_usage obs =? m_usage i)
+      && oz_eqb (m_start obs) (match m_start i with Some s => Some s | None => Some now end)
+      && oz_eqb (m_end obs) (match m_end i with Some e => Some e | None => Some now end)
+  end.
+Definition meter_ok (pre : meter) (o : mop) (ret post : meter) : bool :=
+  meter_eqb ret post && meter_wf post &&
+  match o with
+  | MRecord v t => (m_usage post =? v) && oz_eqb (m_start post) (m_start pre) && oz_eqb (m_end post) (Some t)
+  | MReset t => meter_eqb post (mkMeter 0 (Some t) (Some t))
+  end.
+Definition meter_guard (pre : meter) (o : mop) : bool :=
+  meter_wf pre && match m_end pre with Some e => e <=? op_time o | None => false end.
+
+(* ---- publication: versions are opaque tokens; the hash is instantiated per case by a function that
+   agrees with the tokens observed before and after the operation ---- *)
+Definition aud_eqb (a b : aud) : bool :=
+  String.eqb (a_name a) (a_name b) && (a_receipt a =? a_receipt b) && String.eqb (a_reason a) (a_reason b)
+  && oz_eqb (a_rtime a) (a_rtime b).
+Definition pub_eqb (a b : pub) : bool :=
+  String.eqb (p_id a) (p_id b) && String.eqb (p_version a) (p_version b) && String.eqb (p_body a) (p_body b)
+  && String.eqb (p_media a) (p_media b) && option_eqb aud_eqb (p_aud a) (p_aud b) && oz_eqb (p_ptime a) (p_ptime b).
+Definition pout_eqb (a b : pout) : bool :=
+  match a, b with POk x, POk y => pub_eqb x y | PErr x, PErr y => x =? y | _, _ => false end.
+Definition local_hash (pre post : option pub) : content -> string :=
+  fun c => match pre with
+           | Some p => if content_eqb c (content_of p) then p_version p
+                       else match post with Some q => p_version q | None => EmptyString end
+           | None => match post with Some q => p_version q | None => EmptyString end
+           end.
+Definition aud_name (p : pub) : string := match p_aud p with Some a => a_name a | None => EmptyString end.
+Definition fresh_ok (now : Z) (n : pub) : bool :=
+  oz_eqb (p_ptime n) (Some now) && negb (String.eqb (p_version n) EmptyString)
+  && match p_aud n with
+     | Some a => (a_receipt a =? NO_SIGNAL) && String.eqb (a_reason a) EmptyString && oz_eqb (a_rtime a) None
+     | None => true
+     end.
+Definition unchanged (pre post : option pub) : bool := option_eqb pub_eqb pre post.
+Definition pub_ok (now : Z) (pre : option pub) (o : pubop) (obs : pout) (post : option pub) : bool :=
+  match o with
+  | PCreate p =>
+      match pre, obs, post with
+      | Some _, PErr c, _ => (c =? 6) && unchanged pre post
+      | None, POk n, Some q =>
+          pub_eqb n q && fresh_ok now n && content_eqb (content_of n) (content_of p)
+          && Bool.eqb (match p_aud n with Some _ => true | None => false end) (match p_aud p with Some _ => true | None => false end)
+      | _, _, _ => false
+      end
+  | PUpdate p mask version =>
+      match obs with
+      | PErr c =>
+          unchanged pre post &&
+          (if String.eqb (p_id p) EmptyString then c =? 3
+           else match pre with
+                | None => c =? 5
+                | Some old => (c =? 9) && negb (String.eqb version EmptyString) && negb (String.eqb version (p_version old))
+                end)
+      | POk n =>
+          match pre, post with
+          | Some old, Some q =>
+              pub_eqb n q && fresh_ok now n
+              && (String.eqb version EmptyString || String.eqb version (p_version old))
+              && String.eqb (p_id n) (p_id old) && String.eqb (p_body n) (p_body p)
+              && (if mask =? 1 then String.eqb (p_media n) (p_media old) else String.eqb (p_media n) (p_media p))
+              && (if mask =? 0 then String.eqb (aud_name n) (aud_name p) else String.eqb (aud_name n) (aud_name old))
+              (* the version is a function of the content, and distinguishes contents *)
+              && Bool.eqb (String.eqb (p_version n) (p_version old)) (content_eqb (content_of n) (content_of old))
+          | _, _ => false
+          end
+      end
+  | PAck id version receipt reason allow =>
+      match obs with
+      | PErr c =>
+          unchanged pre post &&
+          (if String.eqb id EmptyString || String.eqb version EmptyString then c =? 3
+           else match pre with
+                | None => c =? 5
+                | Some old => if negb (String.eqb version (p_version old)) then c =? 10
+                              else (c =? 9) && acked old && negb allow
+                end)
+      | POk n =>
+          match pre, post with
+          | Some old, Some q =>
+              String.eqb version (p_version old) && negb (String.eqb version EmptyString) && pub_eqb n q &&
+              if acked old then allow && pub_eqb q old
+              else
+                String.eqb (p_id n) (p_id old) && String.eqb (p_version n) (p_version old) && String.eqb (p_body n) (p_body old)
+                && String.eqb (p_media n) (p_media old) && oz_eqb (p_ptime n) (p_ptime old) && String.eqb (aud_name n) (aud_name old)
+                && match p_aud n with
+                   | Some a => (a_receipt a =? receipt) && String.eqb (a_reason a) reason && oz_eqb (a_rtime a) (Some now)
+                   | None => false
+                   end
+          | _, _ => false
+          end
+      end
+  end.
+
 Definition C20_ok (c : c20case) : bool :=
   match c with
   | KParent pre o ret post => parent_ok pre o ret post
@@ -98,12 +280,32 @@ Definition C20_ok (c : c20case) : bool :=
       && match obs with Some _ => convert_matches eps64 v (Some v) back | None => true end
   | KVendConfig stocks consumables inventory listed => strs_eqb stocks inventory && strs_eqb consumables listed
   | KDispense pre q obs post => dispense_matches false pre (dispense_spec_with phys_convert pre q) obs post
+  | KFan ps pre req rel obs post => fan_ok ps pre req rel obs post
+  | KModeConfig given used initial =>
+      modes_eqb used given && option_eqb mvalues_eqb (initial_values given) (Some initial)
+  | KMode ms pre abs rel mask obs post => mode_ok ms pre abs rel mask obs post
+  | KEnterLeave pre o post => el_ok pre o post
+  | KMeterNew init now obs => meter_new_ok init now obs
+  | KMeter pre o ret post => meter_ok pre o ret post
+  | KPub now pre o obs post => pub_ok now pre o obs post
   end.
 
 Definition C20_guard (c : c20case) : bool :=
   match c with
   | KParent pre _ _ _ => parent_guard pre
   | KConvert _ _ _ _ _ | KVendConfig _ _ _ _ | KDispense _ _ _ _ => true
+  | KFan ps pre _ _ _ _ => presets_wf ps && fan_consistent ps pre
+  | KModeConfig _ _ _ => true
+  | KMode ms _ _ rel _ _ _ => mode_guard ms rel
+  | KEnterLeave pre _ _ => el_guard pre
+  | KMeterNew init now _ =>
+      match init with
+      | Some i => match m_start i, m_end i with
+                  | Some s, Some e => s <=? e | Some s, None => s <=? now | None, Some e => now <=? e | None, None => true end
+      | None => true
+      end
+  | KMeter pre o _ _ => meter_guard pre o
+  | KPub _ _ _ _ _ => true
   end.
 
 Definition agrees (c : c20case) : bool :=
@@ -118,6 +320,20 @@ Definition agrees (c : c20case) : bool :=
          end
   | KVendConfig stocks consumables inventory listed => strs_eqb stocks inventory && strs_eqb consumables listed
   | KDispense pre q obs post => dispense_matches true pre (dispense pre q) obs post
+  | KFan ps pre req rel obs post =>
+      let '(o, p) := fan_update ps pre req rel in fout_eqb obs o && fan_eqb post p
+  | KModeConfig given used initial =>
+      match new_model given with
+      | Some (ms, v) => modes_eqb used ms && mvalues_eqb initial v
+      | None => false
+      end
+  | KMode ms pre abs rel mask obs post =>
+      let p := mode_update ms pre abs rel mask in option_eqb mvalues_eqb obs (Some p) && mvalues_eqb post p
+  | KEnterLeave pre o post => elev_eqb post (el_step pre o)
+  | KMeterNew init now obs => meter_eqb obs (new_meter init now)
+  | KMeter pre o ret post => meter_eqb ret (meter_step pre o) && meter_eqb post (meter_step pre o)
+  | KPub now pre o obs post =>
+      let '(o', p') := pub_step (local_hash pre post) now pre o in pout_eqb obs o' && option_eqb pub_eqb post p'
   end.
 
 Definition judge (c : c20case) : Z :=
